@@ -35,6 +35,8 @@ var exprForms = []string{
 	`'' ~ "x#{a}"`, `f('', "#{a}")`, `"" ~ 'x' ~ "#{b}#{''}"`,
 	`arr.1.0`, `h.k.0`, `arr.0|up`, `arr.0 ~ a`, `arr.0[0]`, `arr.0.k`, `nest.0.k`, `nest.1.k|up`,
 	`a and -b`, `z or +a`, `not -z`, `a and not z`, `a in [-1, +3]`, `a is odd or -b`, `a - -b`, `a ~ -b`, `-a ** 2`, `(a) - (b)`, `f(-a, +b)`, `a == -b ? -a : +b`,
+	// strings that contain delimiters (no interpolation): both quote styles hold them alike
+	`'a }} b'`, `'width: 100%}' ~ 'x'`, `f('{{ a }}', '{% if %}')`, `s == '}}' ? '{#' : '#}'`, `'}' ~ '}' ~ '%' ~ '}'`, `['{{', '}}']|join`,
 }
 
 var tagForms = []CorpusItem{
